@@ -70,7 +70,7 @@ ADDENDA = {
  "C14": " (As built now: extents 1..4 on ranks 0..4 in quick, 1..5 thorough, ranks 5-6 against low ranks, all pairs of 11 larger shapes, and a second request on the same source objects refilled in place.)",
  "C15": " (As built now: Go-native int/uint tensors as never-allowed types, lists with spare capacity, gate histories on one operator object, and the gate as applied by Model.Run for every operator and count.)",
  "C16": " (As built now: ~150 models incl. LSTM peepholes, per-head MatMul weights, full-size convolution kernels and models with samples 150x / 1e7x larger and of opposite sign; pool 4 / length 4 quick, 5 / 5 thorough.)",
- "C17": " (As built now: 400+ frozen subjects incl. a batch-1 feed, 127 exploration subjects whose second thread first makes a call that fails inside an operator, a global-state pass in a fresh process over all package-level symbols one level deep, cold-start processes, and a scheduler that tolerates threads blocked on the library's own locks.)",
+ "C17": " (As built now: 400+ frozen subjects incl. a batch-1 feed, 127 exploration subjects whose second thread first makes a call that fails inside an operator, a global-state pass in a fresh process over all package-level symbols one level deep, cold-start processes, a scheduler that tolerates threads blocked on the library's own locks (decided from goroutine state, never from elapsed time), and a collector-in-the-window pass: an overlay build forces a garbage collection inside each of gorgonia's four uintptr windows, one fresh process per subject, freed memory clobbered.)",
  "C18": " Unsupported operators are also placed off the path to the outputs and combined with caller-supplied entries for node outputs; the three loaders (bytes, file, zip stored/deflated) must agree on models up to 1 MiB.",
  "C12": " Further: payloads up to 65 541 elements, dims whose product wraps to the payload length, negative data_type codes, a short typed field topped up by a stray second field, several initializers with identical bytes but different dims in one model, and the file / zip loaders as observation points.",
 }
